@@ -260,8 +260,12 @@ def random_chunk(items, extra):
         mg2 = MatrixGrader(answers='[[1,0],[0,1]]', max_array_dim=2)
         ng = NumericalGrader(answers='1')
         reuse_cfg = {'variables': ['x'], 'answers': 'x+1'}
+        from engine import bystanders
+        extra_actions = bystanders.actions()
         for k in range(count):
             r = rng.random()
+            if rng.random() < 0.15:
+                rng.choice(extra_actions)()
             # at most ONE bystander action per observed call, so that whatever it leaves behind is still there
             # when the snapshot is taken (a later bystander call could repair it again)
             try:
